@@ -48,7 +48,7 @@ def real_eval(e, args, simplify=False, optimize=False):
 def lean_requests(c, reqs):
     """send JSON requests to the Expr driver; returns parsed answers (dict) or {'bad': text}"""
     out = []
-    for a in c.model(reqs, driver='Expr'):
+    for a in c.model(reqs, driver='Expr', timeout=3000):
         out.append({'bad': a} if a.startswith('bad-request') else json.loads(a))
     return out
 
